@@ -25,15 +25,20 @@ Modules == {"tools", "laue"}
 RotClasses == {"valid64", "valid32", "nonorth", "detm1", "scaled"}
 Classes(f) == CASE f \in {"u_to_euler", "u_to_rod", "u_to_ubi"} -> RotClasses
                 [] f = "euler_to_u" -> {"valid", "negative", "above2pi"}
-                [] f \in {"ubi_to_u", "ubi_to_u_and_eps"} -> {"validubi", "lefthanded"}
+                [] f \in {"ubi_to_u", "ubi_to_u_and_eps", "ubi_to_u_b"} -> {"validubi", "lefthanded"}
+                   (* composite: ubi_to_u then u_to_rod.  "halfturn" = a valid right-handed UBI whose orientation is a rotation by
+                      180 degrees: no Rodrigues vector exists, the function leaves through its ordinary ValueError - NOT a check's -
+                      whatever the switch says, and the switch is what it was *)
+                [] f = "ubi_to_rod" -> {"validubi", "lefthanded", "halfturn"}
                 [] f = "ub_to_u_b" -> {"validub", "negdet"}
                 [] f = "Umis" -> {"valid64", "valid32", "nonorth", "nonorth2", "detm1"}
 ValidClasses == {"valid64", "valid32", "valid", "validubi", "validub"}
-Rejects(f) == Classes(f) \ ValidClasses
-Funcs == {"u_to_euler", "u_to_rod", "u_to_ubi", "euler_to_u", "ubi_to_u", "ubi_to_u_and_eps", "ub_to_u_b"}
+Unguarded == {"halfturn"}          \* outside the function's domain, but no check's business
+Rejects(f) == (Classes(f) \ ValidClasses) \ Unguarded
+Funcs == {"u_to_euler", "u_to_rod", "u_to_ubi", "euler_to_u", "ubi_to_u", "ubi_to_u_and_eps", "ub_to_u_b", "ubi_to_rod", "ubi_to_u_b"}
 
 Calls == {[m |-> m, f |-> f, c |-> c] : m \in Modules, f \in Funcs, c \in RotClasses \cup
-              {"valid", "negative", "above2pi", "validubi", "lefthanded", "validub", "negdet"}}
+              {"valid", "negative", "above2pi", "validubi", "lefthanded", "validub", "negdet", "halfturn"}}
 CallEvents == {e \in Calls : e.c \in Classes(e.f)}
               \cup {[m |-> "symmetry", f |-> "Umis", c |-> c] : c \in Classes("Umis")}
 
@@ -81,7 +86,9 @@ NeverRejectsValid == \A i \in 1..Len(hist) : (hist[i].ev = "call" /\ hist[i].c \
 OffMeansOff == \A i \in 1..Len(hist) : (hist[i].ev = "call" /\ ~hist[i].sw) => hist[i].out # "CheckError"
 (* with the switch on every invalid class is rejected *)
 OnRejectsInvalid == \A i \in 1..Len(hist) :
-     (hist[i].ev = "call" /\ hist[i].sw /\ hist[i].c \notin ValidClasses) => hist[i].out = "CheckError"
+     (hist[i].ev = "call" /\ hist[i].sw /\ hist[i].c \notin ValidClasses \cup Unguarded) => hist[i].out = "CheckError"
+(* no call ever changes the switch (action property): composite functions that call guarded functions included *)
+CallsKeepSwitch == [][(\E e \in CallEvents : Call(e)) => switch' = switch]_vars
 (* an invalid assignment leaves the switch unchanged (action property) *)
 InvalidAssignKeeps == [][(\E v \in AssignValues \ ValidAssign : Assign(v)) => switch' = switch]_vars
 
